@@ -240,6 +240,7 @@ type c19Task struct {
 	// loads
 	Inputs []int `json:"inputs,omitempty"` // fixture index per goroutine
 	Rounds int   `json:"rounds,omitempty"`
+	Cold   bool  `json:"cold,omitempty"` // the concurrent loads are the first loads of the (fresh) worker process
 }
 
 type c19Job struct {
@@ -330,6 +331,24 @@ func c19Worker(args []string) int {
 			}
 			results[i] = c19TaskResult{Violations: viol}
 		case "loads":
+			var cold []string
+			if t.Cold && baseline == nil {
+				// nothing has been loaded in this process yet: whatever the library initialises on first use is initialised
+				// by these goroutines at once
+				cold = make([]string, len(t.Inputs))
+				var wgc sync.WaitGroup
+				startc := make(chan struct{})
+				for g, fi := range t.Inputs {
+					wgc.Add(1)
+					go func(g, fi int) {
+						defer wgc.Done()
+						<-startc
+						cold[g] = c19LoadDigest(job.Fixtures[fi])
+					}(g, fi)
+				}
+				close(startc)
+				wgc.Wait()
+			}
 			if baseline == nil {
 				for _, f := range job.Fixtures {
 					baseline = append(baseline, c19LoadDigest(f)) // each input loaded alone first
@@ -337,6 +356,11 @@ func c19Worker(args []string) int {
 			}
 			var viol []string
 			var mu sync.Mutex
+			for g, d := range cold {
+				if d != baseline[t.Inputs[g]] {
+					viol = append(viol, fmt.Sprintf("concurrent-result-differs: input %s loaded concurrently as the first load of the process gives %s, alone %s", job.Fixtures[t.Inputs[g]].Name, d, baseline[t.Inputs[g]]))
+				}
+			}
 			for round := 0; round < t.Rounds; round++ {
 				var wg sync.WaitGroup
 				start := make(chan struct{})
@@ -748,6 +772,18 @@ func C19(c *core.Ctx) {
 			defer wg2.Done()
 			c19RunJob(c, fmt.Sprintf("loads%d", s), c19Job{Procs: 4, Fixtures: fixtures, Tasks: part}, func(t c19Task) bool { return len(t.Inputs) >= 2 })
 		}(s, part)
+	}
+	// three fresh processes whose very first loads are concurrent
+	for k := 0; k < 3; k++ {
+		var inputs []int
+		for g := 0; g < 12; g++ {
+			inputs = append(inputs, (g*(k+1)+k)%len(fixtures))
+		}
+		wg2.Add(1)
+		go func(k int, inputs []int) {
+			defer wg2.Done()
+			c19RunJob(c, fmt.Sprintf("cold%d", k), c19Job{Procs: 8, Fixtures: fixtures, Tasks: []c19Task{{Kind: "loads", Inputs: inputs, Rounds: 1, Cold: true}}}, func(t c19Task) bool { return true })
+		}(k, inputs)
 	}
 	wg2.Wait()
 	c.Set("concurrent_load_workloads", map[string]interface{}{"workloads": len(ltasks), "rounds_each": rounds, "goroutines": sizes, "fixtures": len(fixtures)})
